@@ -699,6 +699,14 @@ func scriptLateSameTermVote() []Event {
 // scriptCheckQuorumReports: the leader is cut off; its transport keeps reporting the peers
 // unreachable (and a snapshot failure, and a transfer request arrives) – local reports about a
 // peer are not contact with that peer.
+// scriptCheckQuorumTransfer: node 1 leads and is asked to hand over to node 2 while node 2 cannot
+// be reached (the transfer times out), then loses contact with everybody and keeps receiving
+// transfer requests with alternating targets.
+func scriptCheckQuorumTransfer() []Event {
+	return seq(ticks(1, 3), prop(1), roundTicks(3, 1), cut(1, 2), xfer(1, 2), ticks(1, 2), ticks(3, 1), ticks(1, 2), heal(), roundTicks(3, 1), prop(1),
+		isolate(1), ticks(1, 2), xfer(1, 2), ticks(1, 2), xfer(1, 3), ticks(1, 2), xfer(1, 2), ticks(1, 2))
+}
+
 func scriptCheckQuorumReports() []Event {
 	return seq(ticks(1, 3), prop(1), roundTicks(3, 1), isolate(1),
 		ticks(1, 2), unreach(1, 2), unreach(1, 3), ticks(1, 2), unreach(1, 2), reportSnap(1, 3, 1), ticks(1, 2), xfer(1, 2), unreach(1, 3), ticks(1, 2), unreach(1, 2), unreach(1, 3), ticks(1, 2),
@@ -1203,6 +1211,13 @@ func poolTick(tier string) (p pool) {
 	}
 	for _, f := range []feat{cqF, pvcqF} {
 		p.dd = append(p.dd, tickSc("checkquorum-reports", 3, f, scriptCheckQuorumReports(), k, tb...))
+	}
+	for _, f := range []feat{cqF, pvcqF} {
+		// leadership transfers requested at a CheckQuorum leader, first while it is connected, then
+		// while it is cut off (each request it acts on restarts its CheckQuorum period: known finding KF-3)
+		ct := tickSc("checkquorum-transfer", 3, f, scriptCheckQuorumTransfer(), k, int(BTick), 2, int(BDrop), 1, int(BTransfer), 1)
+		ct.TransferPairs = [][2]uint8{{1, 2}, {1, 3}}
+		p.dd = append(p.dd, ct)
 	}
 	for _, f := range []feat{cqF, pvcqF} {
 		sp := tickSc("checkquorum-snapshot-peer", 3, f, scriptCheckQuorumSnapshotPeer(), k, tb...)
